@@ -165,6 +165,8 @@ impl<T> ParallelVecWriter<T> {
         let current_len = reader.len();
         let current_cap = reader.capacity();
         mem::drop(reader);
+        #[cfg(egglog_verif)]
+        crate::verif::perturb(30);
         if current_cap < end {
             let mut writer = self.data.lock();
             if writer.capacity() < end {
@@ -201,6 +203,8 @@ impl<T> ParallelVecWriter<T> {
     /// require Drop).
     unsafe fn write_slice_raw(&self, items: &[T]) -> usize {
         let start = self.reserve_space(items.len());
+        #[cfg(egglog_verif)]
+        crate::verif::perturb(31);
         let reader = self.data.read();
         debug_assert!(reader.capacity() >= start + items.len());
         // SAFETY: the slice is initialized, the destination range is reserved
